@@ -3,7 +3,7 @@
 From Coq Require Import List Bool ZArith NArith.
 Import ListNotations.
 From Verif Require Import Common.ListX Gen.Tables C19.Bencode C19.Edn C19.Json C19.Spec
-  C19.BencodeProofs C19.EdnProofs C19.JsonProofs.
+  C19.BencodeProofs C19.BencodeInj C19.EdnProofs C19.JsonProofs.
 Local Open Scope N_scope.
 
 (** Obligations on the tables regenerated from edn.lpy / bencode.lpy *)
@@ -34,6 +34,18 @@ Theorem C19_bencode_stream : forall msgs k, forallb wf msgs = true ->
   decode_all (firstn k (concat (map encode msgs))) = Some (split_stream msgs k).
 Proof. exact bencode_stream. Qed.
 
+(** the writer is injective and its image is a prefix code: no encoding is a proper prefix of
+    another, and a byte stream is the concatenation of at most one sequence of messages *)
+Theorem C19_bencode_prefix_code : forall v w q, wf v = true -> wf w = true ->
+  encode v = encode w ++ q -> v = w /\ q = [].
+Proof. exact BencodeInj.encode_prefix_code. Qed.
+Theorem C19_bencode_encode_injective : forall v w, wf v = true -> wf w = true ->
+  encode v = encode w -> v = w.
+Proof. exact BencodeInj.encode_injective. Qed.
+Theorem C19_bencode_stream_injective : forall ms ns,
+  forallb wf ms = true -> forallb wf ns = true ->
+  concat (map encode ms) = concat (map encode ns) -> ms = ns.
+Proof. exact BencodeInj.stream_injective. Qed.
 Theorem C19_bencode_encode_is_reference : forall v, wf v = true -> encode v = ref_encode v.
 Proof. exact encode_ref. Qed.
 
@@ -124,6 +136,9 @@ Print Assumptions C19_bencode_fuel_sufficient.
 Print Assumptions C19_bencode_roundtrip.
 Print Assumptions C19_bencode_prefix_free.
 Print Assumptions C19_bencode_stream.
+Print Assumptions C19_bencode_prefix_code.
+Print Assumptions C19_bencode_encode_injective.
+Print Assumptions C19_bencode_stream_injective.
 Print Assumptions C19_bencode_encode_is_reference.
 Print Assumptions C19_bencode_numeral_canonical.
 Print Assumptions C19_bencode_roundtrip_any_order.
